@@ -208,8 +208,10 @@ class GaussianMixture:
         weights /= np.sum(weights)
 
         # Update means
-        means = np.dot(weighted_resp.T, X) / (
-            np.sum(weighted_resp, axis=0)[:, np.newaxis] + 1e-10
+        # (guard against an empty component only: adding a constant to the
+        # denominator would pull every mean towards the origin)
+        means = np.dot(weighted_resp.T, X) / np.maximum(
+            np.sum(weighted_resp, axis=0)[:, np.newaxis], np.finfo(float).tiny
         )
 
         # Update covariances
